@@ -399,8 +399,13 @@ func main() {
 			// the three condition functions as an enumeration (0 = no function)
 			consts["zxcvbnConditionScore"], consts["zxcvbnConditionEntropy"], consts["zxcvbnConditionTime"] = 1, 2, 3
 			w.WriteString(translateFunc(f, fset, "newZXCVBNPolicy", "newZXCVBNPolicy", ty, consts, nil))
+			w.WriteString("\n")
+			// NewPasswordPolicy: the zxcvbn branch hands over to newZXCVBNPolicy (a parameter: non-nil?, error)
+			w.WriteString(translateWith(f, fset, "", "NewPasswordPolicy", "newPasswordPolicy", "(Bytes → Bool × Bool) → Bytes → Bytes → Bool × Bool", consts, nil, false,
+				map[string]funcParam{"newZXCVBNPolicy": {"zxcvbn", []trType{tStr}, []trType{tOpaque, tErr}}}))
 		} else {
 			w.WriteString("def newZXCVBNPolicy : Option (" + ty + ") := none\n")
+			w.WriteString("def newPasswordPolicy : Option ((Bytes → Bool × Bool) → Bytes → Bytes → Bool × Bool) := none\n")
 		}
 		w.WriteString("\nend Whawty.Gen\n")
 		o := filepath.Join(filepath.Dir(out), "PolicyCond.lean")
